@@ -312,15 +312,15 @@ func c39GenString(r *vRand) []byte {
 	case 1:
 		return []byte(c39NamePool[r.Intn(len(c39NamePool))])
 	case 2:
-		return []byte(strings.Repeat("n", r.Range(40, 70)))
+		return []byte(strings.Repeat("n", r.Range(40, 66)))
 	case 3: // DNS-1123 label/subdomain limits
-		return []byte(strings.Repeat("abcdefghi-", 26)[:[]int{63, 253, 50, 62}[r.Intn(4)]])
+		return []byte(strings.Repeat("abcdefghi-", 26)[:[]int{63, 130, 50, 62, 49, 64}[r.Intn(6)]])
 	case 4:
 		return append([]byte("bad\xff\xfeutf"), r.Bytes(r.Range(0, 4))...)
 	}
 	n := r.Range(1, 30)
-	if r.Chance(15) {
-		n = r.Range(40, 120)
+	if r.Chance(10) {
+		n = r.Range(40, 90)
 	}
 	var sb strings.Builder
 	mix := r.Chance(30)
@@ -343,7 +343,7 @@ func c39Gen(r *vRand, i int) c39Case {
 	case 0, 1:
 		cs := c39Case{Kind: "meta", Name: c39NamePool[r.Intn(len(c39NamePool))], NS: []string{"default", "kafka", "ns-1"}[r.Intn(3)]}
 		if !r.Chance(8) {
-			v := []int32{1, 1, 2, 3, 3, 5, 17, 0, -1}[r.Intn(9)]
+			v := []int32{1, 1, 2, 3, 3, 5, 9, 0, -1}[r.Intn(9)]
 			cs.Replicas = &v
 		}
 		cs.Host = []string{"", "", " ", "kafka.example.com", " 10.0.0.1 ", "host\t", "lb.internal"}[r.Intn(7)]
@@ -370,9 +370,9 @@ func c39Gen(r *vRand, i int) c39Case {
 }
 
 func TestVerifC39(t *testing.T) {
-	rep := vNewReport("C39", "generated cluster specs (replicas nil/-1/0/1/2/3/5/17, advertised host empty/padded/set, ports nil/<=0/set, 0-3 topics with 0-12 partitions, rarely negative) through the real BuildClusterMetadata and, with the fake client, reconcileBrokerDeployment + reconcileBrokerHeadlessService; generated names/namespaces (ASCII, upper case, dots, underscores, unicode incl. letters whose lower case is ASCII, symbols, white space, invalid UTF-8, 0-253 bytes) through the real defaultEtcdSnapshotBucket, and raw strings through sanitizeBucketName; a case is non-trivial when it is an admissible metadata case with >= 2 brokers or a topic, or a bucket case whose raw name needs sanitising (non-ASCII, over 63 bytes) ; distinct = distinct canonical case")
+	rep := vNewReport("C39", "generated cluster specs (replicas nil/-1/0/1/2/3/5/9, advertised host empty/padded/set, ports nil/<=0/set, 0-3 topics with 0-12 partitions, rarely negative) through the real BuildClusterMetadata and, with the fake client, reconcileBrokerDeployment + reconcileBrokerHeadlessService; generated names/namespaces (ASCII, upper case, dots, underscores, unicode incl. letters whose lower case is ASCII, symbols, white space, invalid UTF-8, 0-253 bytes, mostly under 70) through the real defaultEtcdSnapshotBucket, and raw strings through sanitizeBucketName; a case is non-trivial when it is an admissible metadata case with >= 2 brokers or a topic, or a bucket case whose raw name needs sanitising (non-ASCII, over 63 bytes) ; distinct = distinct canonical case")
 	scheme := testScheme(t)
-	var coq, jsons []string
+	coqBy, jsonBy := map[string][]string{}, map[string][]string{}
 	runOne := func(cs c39Case) {
 		var out c39Out
 		switch cs.Kind {
@@ -432,15 +432,17 @@ func TestVerifC39(t *testing.T) {
 			_ = out2
 		}
 		// the emitted case is the original one
+		var term string
 		switch cs.Kind {
 		case "meta":
-			coq = append(coq, c39RunMeta(cs, scheme).coq)
+			term = c39RunMeta(cs, scheme).coq
 		case "bucket":
-			coq = append(coq, c39RunBucket(cs).coq)
+			term = c39RunBucket(cs).coq
 		default:
-			coq = append(coq, c39RunSanitize(cs).coq)
+			term = c39RunSanitize(cs).coq
 		}
-		jsons = append(jsons, string(canon))
+		coqBy[cs.Kind] = append(coqBy[cs.Kind], term)
+		jsonBy[cs.Kind] = append(jsonBy[cs.Kind], string(canon))
 	}
 	if rc := vReplayCase(); rc != nil {
 		var cs c39Case
@@ -453,6 +455,8 @@ func TestVerifC39(t *testing.T) {
 		corpus := []c39Case{
 			// fixed finding: 63-character namespace + 50-character name gave a 128-character bucket name
 			{Kind: "bucket", NSB: []byte(strings.Repeat("n", 63)), NameB: []byte(strings.Repeat("c", 50))},
+			// DNS-1123 subdomain limit for the name, label limit for the namespace
+			{Kind: "bucket", NSB: []byte(strings.Repeat("abcdefghi-", 7)[:63]), NameB: []byte(strings.Repeat("abcdefghi.", 26)[:253])},
 			// truncation lands on a '-'
 			{Kind: "bucket", NSB: []byte(strings.Repeat("n", 48)), NameB: []byte("-x")},
 			{Kind: "bucket", NSB: []byte("Prod.EU"), NameB: []byte("My_Cluster")},
@@ -467,12 +471,16 @@ func TestVerifC39(t *testing.T) {
 			runOne(cs)
 		}
 		r := vNewRand(vSeed())
-		n := vN(480, 6000)
+		n := vN(360, 4000)
 		for i := 0; i < n; i++ {
 			runOne(c39Gen(r.Fork(), i))
 		}
 	}
-	rep.Cases("C39", "From KS Require Import lib.Base lib.Strings model.Operator corr.OperatorCorr.", "case", "check_case", coq, jsons)
+	for _, k := range []string{"meta", "bucket", "sanitize"} {
+		if len(coqBy[k]) > 0 {
+			rep.Cases("C39_"+k, "From KS Require Import lib.Base lib.Strings model.Operator corr.OperatorCorr.", "case", "check_case", coqBy[k], jsonBy[k])
+		}
+	}
 	rep.Write()
 	if len(rep.Failures) > 0 {
 		t.Logf("oracle failures: %s", strings.TrimSpace(rep.Failures[0].What))
